@@ -40,7 +40,11 @@ fn rig() -> Result<Rig, String> {
     let (transport, addr) = rt.block_on(async {
         let sock = tokio::net::UdpSocket::bind("127.0.0.1:0").await.map_err(|e| e.to_string())?;
         let addr = sock.local_addr().map_err(|e| e.to_string())?;
-        let t = UdpTransport::try_from((sock, HashMap::new())).map_err(|e| e.to_string())?;
+        // entity 77 is routed back to the transport's own socket: a datagram the transport sends
+        // there comes in from its own address (broadcast / multicast setups, a self-routing map)
+        let mut map = HashMap::new();
+        map.insert(cfdp_core::pdu::VariableID::from(77u8), addr);
+        let t = UdpTransport::try_from((sock, map)).map_err(|e| e.to_string())?;
         Ok::<_, String>((t, addr))
     })?;
     let peer = std::net::UdpSocket::bind("127.0.0.1:0").map_err(|e| e.to_string())?;
@@ -103,6 +107,62 @@ fn play_once(history: &[Vec<u8>]) -> Result<Option<CViol>, String> {
     Ok(None)
 }
 
+fn self_case_text(own: &[u8], peer: &[u8]) -> String {
+    format!("# cfdp-verif udp v1\nselfdatagram bytes={}\ndatagram bytes={}\n", hex(own), hex(peer))
+}
+
+/// A datagram that the transport sent to itself (valid PDU `own`), then a datagram of the remote
+/// peer (`peer`, usually truncated). An implementation may hand its own datagram to the daemon or
+/// skip it; either way every value `receive()` returns must be the decoding of the bytes of one
+/// of the two datagrams, in order, and nothing may be merged or lost.
+fn play_self(own: &[u8], peer: &[u8]) -> Result<Option<CViol>, String> {
+    let mut last = String::new();
+    for _ in 0..3 {
+        match play_self_once(own, peer) {
+            Err(e) => last = e,
+            ok => return ok,
+        }
+    }
+    Err(last)
+}
+
+fn play_self_once(own: &[u8], peer: &[u8]) -> Result<Option<CViol>, String> {
+    let r = &mut rig()?;
+    let own_pdu = PDU::decode(&mut &own[..]).map_err(|e| format!("corpus datagram does not decode: {e}"))?;
+    r.rt.block_on(r.transport.request(cfdp_core::pdu::VariableID::from(77u8), own_pdu.clone())).map_err(|e| format!("self send: {e}"))?;
+    r.peer.send_to(peer, r.addr).map_err(|e| format!("send: {e}"))?;
+    let want_own = PDU::decode(&mut &own_pdu.clone().encode()[..]);
+    let want_peer = PDU::decode(&mut &peer[..]);
+    let same = |got: &Result<PDU, std::io::Error>, want: &Result<PDU, cfdp_core::pdu::PDUError>| match (got, want) {
+        (Ok(a), Ok(b)) => a == b,
+        (Err(_), Err(_)) => true,
+        _ => false,
+    };
+    let show = |g: &Result<PDU, std::io::Error>| g.as_ref().map(|p| format!("PDU {}", crate::analysis::describe(p))).unwrap_or_else(|e| format!("error ({})", e));
+    let mk = |clause: &str, detail: String| CViol { clause: clause.into(), signature: format!("C16/{}/after_own_datagram", clause), detail, replay: self_case_text(own, peer) };
+    let first = r.rt.block_on(async { tokio::time::timeout(Duration::from_secs(2), r.transport.receive()).await });
+    let Ok(first) = first else { return Err("loopback datagram not received within 2 s".into()) };
+    if same(&first, &want_own) {
+        // the own datagram was handed over: the peer's must follow, decoded from its own bytes
+        // (both datagrams are in the socket's queue already: 300 ms is ample on loopback)
+        let second = r.rt.block_on(async { tokio::time::timeout(Duration::from_millis(300), r.transport.receive()).await });
+        match second {
+            Ok(g) if same(&g, &want_peer) => Ok(None),
+            Ok(g) => Ok(Some(mk("decoded_differently_from_own_bytes", format!("after a datagram from the transport's own address, the peer's datagram ({} octets) came back as {}", peer.len(), show(&g))))),
+            Err(_) => {
+                // nothing more comes: the two datagrams were merged into the first answer (which
+                // happens to equal the own PDU when the peer's datagram is a truncated copy of it)
+                Ok(Some(mk("truncated_datagram_completed_with_stale_bytes", format!("own datagram ({} octets) then a peer datagram of {} octets: receive() returned one PDU equal to the own one and then nothing: the peer's datagram was consumed without an answer of its own", own.len(), peer.len()))))
+            }
+        }
+    } else if same(&first, &want_peer) {
+        // the own datagram was skipped: fine
+        Ok(None)
+    } else {
+        Ok(Some(mk("truncated_datagram_completed_with_stale_bytes", format!("own datagram ({} octets) then a peer datagram of {} octets: receive() returned {}, which is the decoding of neither", own.len(), peer.len(), show(&first)))))
+    }
+}
+
 fn run(tier: Tier, seed: u64, workers: usize) -> COut {
     let root = camino::Utf8PathBuf::from(format!("/dev/shm/cfdp-verif/{}/corpus", std::process::id()));
     let mut corpus: Vec<Item> = wirecorpus::build(&root, None);
@@ -118,6 +178,7 @@ fn run(tier: Tier, seed: u64, workers: usize) -> COut {
     let mut out = par(n, workers, |lo, hi| {
         let mut o = COut::default();
         let (mut sent, mut hist) = (0u64, 0u64);
+        let mut self_viols = 0u32;
         for j in lo..hi {
             let d2 = &corpus[j].bytes;
             let mut rng = Rng::new(mix(seed ^ 0xC16A, j as u64));
@@ -141,6 +202,32 @@ fn run(tier: Tier, seed: u64, workers: usize) -> COut {
                         }
                     }
                     o.note_distinct(&(j, usize::MAX, cut));
+                }
+            }
+            // a datagram from the transport's own address, then truncations of a peer datagram
+            // (of the same PDU, and of the longest one not longer than it)
+            if j % 4 == 0 && self_viols < 20 {
+                let own = &corpus[n - 1 - (j % 7).min(n - 1)].bytes;
+                if own.len() >= d2.len() && PDU::decode(&mut &own[..]).is_ok() {
+                    for cut in (0..d2.len()).step_by(3) {
+                        for peer in [d2[..cut].to_vec(), own[..cut.min(own.len())].to_vec()] {
+                            hist += 1;
+                            sent += 2;
+                            match play_self(own, &peer) {
+                                Ok(Some(v)) => {
+                                    // (each costs a timeout: twenty per worker are evidence enough)
+                                    self_viols += 1;
+                                    o.viol(v)
+                                }
+                                Ok(None) => {}
+                                Err(e) => {
+                                    o.harness_errors.push(e);
+                                    return o;
+                                }
+                            }
+                            o.note_distinct(&(j, usize::MAX - 1, cut, peer.len()));
+                        }
+                    }
                 }
             }
             for (pi, k) in preds.iter().enumerate() {
@@ -189,6 +276,11 @@ fn run(tier: Tier, seed: u64, workers: usize) -> COut {
 }
 
 fn replay(text: &str) -> Result<Vec<CViol>, String> {
+    if let Some(own) = text.lines().find_map(|l| l.strip_prefix("selfdatagram bytes=")) {
+        let own = unhex(own.trim())?;
+        let peer = text.lines().find_map(|l| l.strip_prefix("datagram bytes=")).map(|x| unhex(x.trim())).transpose()?.unwrap_or_default();
+        return play_self(&own, &peer).map(|v| v.into_iter().collect());
+    }
     let mut h = vec![];
     for l in text.lines() {
         if let Some(r) = l.strip_prefix("datagram bytes=") {
@@ -205,7 +297,7 @@ pub fn check() -> Custom {
     Custom {
         prop: "C16",
         level: "fault_enumeration",
-        rule: "one evaluation = one history (a valid datagram D1, then a truncation of a valid datagram D2 no longer than D1, sometimes a second truncation, then a follower: D2 complete, D2's lost tail alone, or D1 again) sent one datagram at a time to a fresh real UdpTransport over loopback; the value returned by receive() for each datagram is compared with PDU::decode of that datagram's own bytes; non-trivial = every history (each contains a truncated datagram); distinct = distinct (D2, D1, truncation length)",
+        rule: "one evaluation = one history (a valid datagram D1, then a truncation of a valid datagram D2 no longer than D1, sometimes a second truncation, then a follower: D2 complete, D2's lost tail alone, or D1 again; or a datagram that the transport sent to its own address followed by a truncated datagram of the peer) sent one datagram at a time to a fresh real UdpTransport over loopback; the value returned by receive() for each datagram is compared with PDU::decode of that datagram's own bytes; non-trivial = every history (each contains a truncated datagram); distinct = distinct (D2, D1, truncation length)",
         assumptions: vec![
             "the kernel's loopback UDP delivers a datagram sent to a bound local socket (a receive that does not complete within 2 s is a harness error, exit 2, never a verdict)",
             "exactly one datagram in flight: no reordering or loss can occur",
